@@ -347,7 +347,7 @@ pub fn run(ctx: &Ctx) -> Outcome {
 async fn one_history(ctx: &Ctx, out: &mut Outcome, rng: &mut Rng, idx: u64, root: &str) {
     let dir = format!("{}/h{}", root, idx);
     std::fs::create_dir_all(&dir).unwrap();
-    let seg = *rng.pick(&[1usize, 400, 900, 2500, 1 << 20]);
+    let seg = *rng.pick(&[0usize, 1, 400, 400, 900, 900, 2500, 2500, 1 << 20, 1 << 20, usize::MAX]);
     let mut next_id = (idx as i64) * 1_000_000;
     let mut m = Model { acked: vec![], trunc_bound: 0, max_mark: 0, flushed: 0, maybe_tail: None, log: vec![format!("segment_limit={}", seg)], dir: dir.clone() };
     let mut viols: Vec<Viol> = vec![];
